@@ -31,6 +31,9 @@ type Step struct {
 	IDs       []int           `json:"ids"`  // ... and the identities of its nodes in preorder
 	Enc       json.RawMessage `json:"enc"`  // load, redecode, marshal: the specification's encoding
 	Size      int             `json:"size"`
+	O         string          `json:"o"`          // newc, setnew, setnewc: how the new object is made (origin), "" = constructor
+	Into      string          `json:"into"`       // redecode: "discovery" | "zero" (UnmarshalBinary on a zero value the caller declared)
+	Orig      []string        `json:"orig"`       // load: the origin of every node, parallel to ids
 	HasStrict bool            `json:"has_strict"` // marshal (C06): the value holds a strict array with elements ...
 	EncKeyed  json.RawMessage `json:"enc_keyed"`  // ... and this is its encoding in the layout StrictKeyed
 }
@@ -45,17 +48,93 @@ type Live struct {
 // "" or the description of a failure.
 type Observe func(k int, st *Step, a amf0.Amf0) string
 
-func newContainer(kind string) amf0.Amf0 {
-	switch kind {
-	case "obj":
-		return amf0.NewObject()
-	case "ecma":
-		return amf0.NewEcmaArray()
-	case "strict", "strictk":
-		return amf0.NewStrictArray()
+// newContainer makes a container the way its origin says: the exported types are usable as Go zero values.
+func newContainer(kind, origin string) amf0.Amf0 {
+	if kind == "strictk" {
+		kind = "strict"
 	}
-	Broken("unknown container kind %q", kind)
+	switch kind + "/" + origin {
+	case "obj/", "obj/new":
+		return amf0.NewObject()
+	case "ecma/", "ecma/new":
+		return amf0.NewEcmaArray()
+	case "strict/", "strict/new":
+		return amf0.NewStrictArray()
+	case "obj/zero":
+		var o amf0.Object
+		return &o
+	case "ecma/zero":
+		var o amf0.EcmaArray
+		return &o
+	case "strict/zero":
+		var o amf0.StrictArray
+		return &o
+	case "obj/lit":
+		return &amf0.Object{}
+	case "ecma/lit":
+		return &amf0.EcmaArray{}
+	case "strict/lit":
+		return &amf0.StrictArray{}
+	case "obj/alloc":
+		return new(amf0.Object)
+	case "ecma/alloc":
+		return new(amf0.EcmaArray)
+	case "strict/alloc":
+		return new(amf0.StrictArray)
+	}
+	Broken("unknown container kind / origin %q / %q", kind, origin)
 	return nil
+}
+
+// ScalarAs makes a scalar the way its origin says: constructor, typed conversion of a Go value, or a declared
+// zero value that is assigned through its pointer.
+func ScalarAs(n *Node, origin string, seed int) amf0.Amf0 {
+	switch origin {
+	case "", "new", "lib":
+		return Scalar(n, seed)
+	case "conv":
+		switch n.T {
+		case "num":
+			x := amf0.Number(math.Float64frombits(n.Bits()))
+			return &x
+		case "bool":
+			x := amf0.Boolean(n.V)
+			return &x
+		case "str":
+			x := amf0.String(Text(*n.S, seed))
+			return &x
+		}
+	case "zero":
+		switch n.T {
+		case "num":
+			var x amf0.Number
+			p := &x
+			*p = amf0.Number(math.Float64frombits(n.Bits()))
+			return p
+		case "bool":
+			var x amf0.Boolean
+			p := &x
+			*p = amf0.Boolean(n.V)
+			return p
+		case "str":
+			var x amf0.String
+			p := &x
+			*p = amf0.String(Text(*n.S, seed))
+			return p
+		}
+	}
+	Broken("a %s can not be made as %q", n.T, origin)
+	return nil
+}
+
+// DecodeInto reads one value by UnmarshalBinary on a zero value of the container type the caller declared
+// (no Discovery): `var o amf0.Object; o.UnmarshalBinary(p)`.
+func DecodeInto(kind string, p []byte) Decoded {
+	a := newContainer(kind, "zero")
+	if err := a.UnmarshalBinary(p); err != nil {
+		return Decoded{Err: fmt.Errorf("UnmarshalBinary on a zero-value %s: %v", kind, err)}
+	}
+	return Decoded{OK: true, Value: a, Size: a.Size()}
 }
 
 // setOn is container.Set(key, v) on whichever container type a is.
@@ -106,21 +185,26 @@ func (l *Live) pop(ids *[]int) int {
 }
 
 // build constructs the tree through the public API and registers every object under its identity (preorder).
-func (l *Live) build(n *Node, ids *[]int) amf0.Amf0 {
+func (l *Live) build(n *Node, ids *[]int, orig *[]string) amf0.Amf0 {
 	id := l.pop(ids)
+	o := ""
+	if len(*orig) > 0 {
+		o = (*orig)[0]
+		*orig = (*orig)[1:]
+	}
 	if !isContainer(n) {
-		s := Scalar(n, l.Seed)
+		s := ScalarAs(n, o, l.Seed)
 		if s == nil {
 			Broken("unknown node type %q", n.T)
 		}
 		l.Objs[id] = s
 		return s
 	}
-	c := newContainer(n.T)
+	c := newContainer(n.T, o)
 	l.Objs[id] = c
 	ks, vs := pairsOf(n, l.Seed)
 	for i := range ks {
-		setOn(c, ks[i], l.build(vs[i], ids))
+		setOn(c, ks[i], l.build(vs[i], ids, orig))
 	}
 	return c
 }
@@ -151,12 +235,17 @@ func (l *Live) bind(n *Node, a amf0.Amf0, ids *[]int, path string) error {
 // decodeInto: the specification's encoding of the tree is unmarshalled by the library into fresh objects, which
 // must be the tree (both properties say so: the step is only taken outside the known finding's shadow), and
 // which are the nodes from now on.
-func (l *Live) decodeInto(st *Step) string {
+func (l *Live) decodeInto(st *Step, zero bool) string {
 	want, free := MustLDFree(st.Enc, l.Seed)
 	if len(want) != st.Size {
 		Broken("live case: encoding has %d bytes, size says %d", len(want), st.Size)
 	}
-	d := Decode(want)
+	var d Decoded
+	if zero {
+		d = DecodeInto(st.V.T, want)
+	} else {
+		d = Decode(want)
+	}
 	if !d.OK {
 		return fmt.Sprintf("decoding the specification's encoding of the node's value (%d bytes) failed: %v", len(want), d.Err)
 	}
@@ -223,24 +312,56 @@ func History(steps []Step, k int) string {
 		}
 		switch st.Op {
 		case "load":
-			fmt.Fprintf(&sb, "#1 := %s tree (%s, %d bytes) %s", st.V.T, shape(st.V), st.Size, map[string]string{"api": "built with New*/Set", "decoded": "decoded"}[st.How])
+			fmt.Fprintf(&sb, "#1 := %s tree (%s, %d bytes) %s%s", st.V.T, shape(st.V), st.Size,
+				map[string]string{"api": "built with Set", "decoded": "decoded", "decoded-zero": "decoded into a zero value"}[st.How], origins(st))
 		case "newc":
-			fmt.Fprintf(&sb, "#%d := New(%s)", st.ID, st.Kind)
+			fmt.Fprintf(&sb, "#%d := %s", st.ID, made(st.Kind, st.O))
 		case "setnew":
-			fmt.Fprintf(&sb, "#%d.Set(%s, #%d := %s)", st.N, key, st.ID, st.Val.T)
+			fmt.Fprintf(&sb, "#%d.Set(%s, #%d := %s)", st.N, key, st.ID, made(st.Val.T, st.O))
 		case "setnewc":
-			fmt.Fprintf(&sb, "#%d.Set(%s, #%d := New(%s))", st.N, key, st.ID, st.Kind)
+			fmt.Fprintf(&sb, "#%d.Set(%s, #%d := %s)", st.N, key, st.ID, made(st.Kind, st.O))
 		case "setnode":
 			fmt.Fprintf(&sb, "#%d.Set(%s, #%d)", st.N, key, st.M)
 		case "assign":
 			fmt.Fprintf(&sb, "*#%d = %s", st.N, st.Val.T)
 		case "redecode":
-			fmt.Fprintf(&sb, "#%d := decoded copy of #%d", st.N, st.N)
+			fmt.Fprintf(&sb, "#%d := decoded copy of #%d%s", st.N, st.N, map[string]string{"zero": " (UnmarshalBinary on a zero value)"}[st.Into])
 		case "marshal":
 			fmt.Fprintf(&sb, "marshal #%d", st.N)
 		}
 	}
 	return sb.String()
+}
+
+// made renders how an object was made.
+func made(t, origin string) string {
+	switch origin {
+	case "", "new":
+		return "New(" + t + ")"
+	case "zero":
+		return "address of a declared zero " + t
+	case "lit":
+		return "&" + t + "{}"
+	case "alloc":
+		return "new(" + t + ")"
+	case "conv":
+		return "address of a converted Go value (" + t + ")"
+	}
+	return t + " made as " + origin
+}
+
+// origins lists the nodes of a loaded tree that no constructor made.
+func origins(st *Step) string {
+	s := ""
+	for i, o := range st.Orig {
+		if o != "" && o != "new" && o != "lib" && i < len(st.IDs) {
+			s += fmt.Sprintf(" #%d=%s", st.IDs[i], o)
+		}
+	}
+	if s != "" {
+		s = ", made as:" + s
+	}
+	return s
 }
 
 // shape is the nesting of a tree in one line: o{e{s{..}.}.}
@@ -269,21 +390,25 @@ func RunLive(steps []Step, seed int, observe Observe) (int, string) {
 			switch st.How {
 			case "api":
 				ids := append([]int(nil), st.IDs...)
-				l.build(st.V, &ids)
+				orig := append([]string(nil), st.Orig...)
+				if len(orig) != 0 && len(orig) != len(ids) {
+					Broken("live case: %d origins for %d nodes", len(orig), len(ids))
+				}
+				l.build(st.V, &ids, &orig)
 				if len(ids) != 0 {
 					Broken("live case: more identities than nodes")
 				}
-			case "decoded":
-				if f := l.decodeInto(st); f != "" {
+			case "decoded", "decoded-zero":
+				if f := l.decodeInto(st, st.How == "decoded-zero"); f != "" {
 					return k, f
 				}
 			default:
 				Broken("live case: unknown way to load %q", st.How)
 			}
 		case "newc":
-			l.Objs[st.ID] = newContainer(st.Kind)
+			l.Objs[st.ID] = newContainer(st.Kind, st.O)
 		case "setnew":
-			s := Scalar(st.Val, seed)
+			s := ScalarAs(st.Val, st.O, seed)
 			if s == nil || st.Key == nil {
 				Broken("live case: setnew without a scalar / a name")
 			}
@@ -292,7 +417,7 @@ func RunLive(steps []Step, seed int, observe Observe) (int, string) {
 			}
 			l.Objs[st.ID] = s
 		case "setnewc":
-			c := newContainer(st.Kind)
+			c := newContainer(st.Kind, st.O)
 			if st.Key == nil || !setOn(l.obj(st.N), Text(*st.Key, seed), c) {
 				Broken("live case: node %d is not a container", st.N)
 			}
@@ -309,7 +434,7 @@ func RunLive(steps []Step, seed int, observe Observe) (int, string) {
 			if st.V == nil {
 				Broken("live case: redecode without a tree")
 			}
-			if f := l.decodeInto(st); f != "" {
+			if f := l.decodeInto(st, st.Into == "zero"); f != "" {
 				return k, f
 			}
 		case "marshal":
